@@ -29,6 +29,13 @@ def bounded(q, preds):
     core = peel_casts(q)
     if core[0] == 'bin' and core[1] == 'Rem' and POW_P(core[3]):
         return 'reduced modulo 1 << PRECISION'
+    if core[0] == 'bin' and core[1] == 'BitAnd':
+        # x & ((1 << PRECISION) - 1): the same reduction written as a mask
+        for m in (core[2], core[3]):
+            pm = pow2.p2(m)
+            e = pow2.all_ones(pm) if pm is not None else None
+            if e is not None and pow2.exp_cmp(e, pow2.width_exp(('c', 'PRECISION'))) == 0:
+                return 'masked with (1 << PRECISION) - 1'
     for t, v, _ in preds:
         if isinstance(v, tuple):
             continue
